@@ -60,6 +60,14 @@ func runC15(c *fw.Ctx) {
 			})
 		}
 	}
+	// ---- two activation heads over ONE tracked input, both built before either is back-propagated, one pass per head ----
+	for i := 0; i < c.Pick(800, 20000); i++ {
+		c.Case(func(k *fw.K) { c15TwoHeads(k) })
+	}
+	// ---- the same layer object and the same input tensor OBJECT over several rounds, the input re-armed with ResetGradContext(true) after each pass ----
+	for i := 0; i < c.Pick(800, 20000); i++ {
+		c.Case(func(k *fw.K) { c15Rearmed(k) })
+	}
 	// ---- (ii) interior inputs ----
 	for i := 0; i < c.Pick(6000, 400000); i++ {
 		c.Case(func(k *fw.K) { c15Upstream(k) })
@@ -151,6 +159,129 @@ func c15Leaf(k *fw.K, sp actSpec, shape []int, class int) {
 		}
 	}
 	k.Failf("%s on shape %v [%s]: %s", sp.name, shape, cname, mismatch)
+}
+
+// c15TwoHeads: y1 = act1(x [* a]) and y2 = act2(x [* b]) share only the tracked leaf x; after BackPropagate on each head in turn
+// x holds the SUM of what the two passes delivered (upstream weighting times derivative, per head).
+func c15TwoHeads(k *fw.K) {
+	r := k.Rng
+	shape := RandShape(r, 0, 3, 3)
+	var specs []actSpec
+	for _, sp := range actSpecs(len(shape)) {
+		if sp.in.Op != "softmax" {
+			specs = append(specs, sp)
+		}
+	}
+	x, _ := actValues(k, 0, shape, 0)
+	rx := rt.MustLeaf(x, true)
+	want := ref.Zeros(shape)
+	type head struct {
+		y tensor.Tensor
+		g *ref.T
+	}
+	var heads []head
+	names := ""
+	for h := 0; h < 2+r.Intn(2); h++ {
+		sp := specs[r.Intn(len(specs))]
+		names += sp.name + " "
+		obj, err := sp.mk()
+		if err != nil {
+			k.Failf("%s: constructor: %v", sp.name, err)
+			return
+		}
+		in, xin, f := rx, x, 1.
+		if r.Intn(2) == 0 { // the head sits behind its own scaling of the shared input
+			f = []float64{2, -1.5, 0.5}[r.Intn(3)]
+			in, xin = rx.Scale(f), x.Map(func(v float64) float64 { return f * v })
+		}
+		var y tensor.Tensor
+		if p := call(func() { y, err = obj.Forward(in) }); p != nil || err != nil || y == nil {
+			k.Failf("%s on shape %v: Forward failed: panic=%v err=%v", sp.name, shape, p, err)
+			return
+		}
+		g := randG(k, shape)
+		yv, _ := ref.Apply(sp.in, []*ref.T{xin})
+		d := ref.VJP(sp.in, []*ref.T{xin}, yv, g, ref.RuleSum)[0]
+		for i := range want.Data {
+			want.Data[i] += f * d.Data[i]
+		}
+		heads = append(heads, head{y, g})
+	}
+	k.Case = map[string]any{"shape": shape, "x": x.Data, "heads": names}
+	k.Key("two-heads/%s/%s", shapeKey(shape), names)
+	k.Count("multi_head_cases", 1)
+	for i, h := range heads {
+		var err error
+		if p := call(func() { err = weightedBackprop(h.y, h.g) }); p != nil || err != nil {
+			k.Failf("heads %sover one input of shape %v: back-propagation of head %d failed: panic=%v err=%v", names, shape, i, p, err)
+			return
+		}
+	}
+	g := rx.Gradient()
+	if g == nil {
+		k.Failf("heads %sover one input of shape %v: the input received no gradient", names, shape)
+		return
+	}
+	if e := rt.Compare(g, want, 1e-10*(1+maxAbs(want)), 1e-9, nil, 0); e != nil {
+		k.Failf("heads %sover one tracked input of shape %v, one back-propagation per head: the input's gradient is not the sum of the heads' contributions: %v", names, shape, e)
+	}
+}
+
+// c15Rearmed: round after round the same activation object is applied to the same tracked input object; after each
+// back-propagation the input is made a fresh leaf again. Every round delivers exactly that round's upstream times derivative.
+func c15Rearmed(k *fw.K) {
+	r := k.Rng
+	shape := RandShape(r, 0, 3, 3)
+	var specs []actSpec
+	for _, sp := range actSpecs(len(shape)) {
+		if sp.in.Op != "softmax" {
+			specs = append(specs, sp)
+		}
+	}
+	sp := specs[r.Intn(len(specs))]
+	obj, err := sp.mk()
+	if err != nil {
+		k.Failf("%s: constructor: %v", sp.name, err)
+		return
+	}
+	x, _ := actValues(k, 0, shape, 0)
+	rx := rt.MustLeaf(x, true)
+	y0, _ := ref.Apply(sp.in, []*ref.T{x})
+	rounds := 2 + r.Intn(3)
+	k.Case = map[string]any{"activation": sp.name, "shape": shape, "x": x.Data, "rounds": rounds}
+	k.Key("rearmed/%s/%s/%d", sp.name, shapeKey(shape), rounds)
+	k.Count("rearmed_input_cases", 1)
+	for round := 0; round < rounds; round++ {
+		g := randG(k, shape)
+		var y tensor.Tensor
+		if p := call(func() {
+			if y, err = obj.Forward(rx); err == nil {
+				err = weightedBackprop(y, g)
+			}
+		}); p != nil || err != nil || y == nil {
+			k.Failf("%s round %d on one input object of shape %v: panic=%v err=%v", sp.name, round+1, shape, p, err)
+			return
+		}
+		if e := rt.Compare(y, y0, 1e-300, 1e-12, nil, 0); e != nil {
+			k.Failf("%s round %d on one input object: forward value: %v", sp.name, round+1, e)
+			return
+		}
+		gr := rx.Gradient()
+		if gr == nil {
+			k.Failf("%s round %d on the same layer and the same input object (re-armed after the previous pass): no gradient delivered to the activation input", sp.name, round+1)
+			return
+		}
+		want := ref.VJP(sp.in, []*ref.T{x}, y0, g, ref.RuleSum)[0]
+		if e := rt.Compare(gr, want, 1e-10*(1+maxAbs(want)), 1e-9, nil, 0); e != nil {
+			k.Failf("%s round %d on the same layer and the same input object (re-armed after the previous pass): %v", sp.name, round+1, e)
+			return
+		}
+		rx.ResetGradContext(true)
+		if rx.Gradient() != nil {
+			k.Failf("%s round %d: ResetGradContext(true) left a gradient on the input", sp.name, round+1)
+			return
+		}
+	}
 }
 
 // checkGradsClassified compares every tensor's gradient with the Sum tape; if that fails but every
